@@ -469,8 +469,11 @@ Definition point_clean (x : string * bool * list res_item) : bool :=
 Definition ctor_clean (c : comp) : bool := forallb point_clean (leftovers [] (ctor_script c)).
 
 (* ---- ResetCids start handshake (resettable_keystore.go ResetCids / worker / handleResetOp) -------------- *)
-(* The caller sends opStart to the worker and then waits for the answer OR for its context; the worker
-   answers on an UNBUFFERED channel.  Close waits for the worker (<-s.done). *)
+(* The caller sends opStart to the worker and then waits for the answer, which the worker sends on an
+   UNBUFFERED channel; the caller looks at its context only after it has the answer (`if err := <-opsChan`,
+   since the fix "ResetCids always collects the worker's answer to the start request"; before it the caller
+   could leave on ctx.Done() while the worker was handling opStart, which wedged the worker and Close).
+   Close waits for the worker (<-s.done). *)
 Inductive rk_caller := RkIdle | RkSent | RkGotAnswer | RkLeft.
 Inductive rk_worker := RwLoop | RwHandling | RwAnswering | RwExited.
 Record rk := { rk_c : rk_caller; rk_w : rk_worker; rk_close_req : bool; rk_close_ret : bool }.
@@ -479,7 +482,7 @@ Inductive rkev :=
 | RkSend          (* s.resetOps <- opStart accepted by the worker's select *)
 | RkPrepared      (* the worker has run prepareAltDs and reaches `op.response <- ...` *)
 | RkDeliver       (* the unbuffered send meets the caller's receive *)
-| RkCancel        (* the caller's context is done: `case <-ctx.Done(): return ctx.Err()` *)
+| RkCancel        (* the caller, holding the answer, sees its context done in the Phase A loop and returns (deferred cleanup) *)
 | RkCloseCall     (* Close: close(s.close) *)
 | RkWorkerExit    (* the worker's select sees s.close *)
 | RkCloseRet.     (* <-s.done returns *)
@@ -495,7 +498,7 @@ Definition rk_step (s : rk) (e : rkev) : option rk :=
                  | RkSent, RwAnswering => Some {| rk_c := RkGotAnswer; rk_w := RwLoop; rk_close_req := rk_close_req s; rk_close_ret := rk_close_ret s |}
                  | _, _ => None end
   | RkCancel => match rk_c s with
-                | RkSent => Some {| rk_c := RkLeft; rk_w := rk_w s; rk_close_req := rk_close_req s; rk_close_ret := rk_close_ret s |}
+                | RkGotAnswer => Some {| rk_c := RkLeft; rk_w := rk_w s; rk_close_req := rk_close_req s; rk_close_ret := rk_close_ret s |}
                 | _ => None end
   | RkCloseCall => Some {| rk_c := rk_c s; rk_w := rk_w s; rk_close_req := true; rk_close_ret := rk_close_ret s |}
   | RkWorkerExit => match rk_w s with
